@@ -15,7 +15,8 @@ LEGAL_INTENTS = ['attach_root', 'attach_under', 'move_in_wbs', 'reorder', 'link'
 
 
 def make_universe(rng):
-    n = rng.randint(5, 12)
+    from . import core as _core
+    n = rng.randint(5, 12) if _core.TIER != 'thorough' else rng.choice([5, 6, 7, 8, 9, 10, 11, 12, 14, 16])
     alpha = rng.choice([max(3, n // 2), n, n, 2 * n, 3 * n])
     # ids: mostly small ints; sometimes strings, sometimes ints and look-alike strings mixed (1 vs '1'), 0 and negatives
     style = rng.choice(['int', 'int', 'int', 'str', 'mixed', 'zero'])
@@ -62,7 +63,8 @@ def make_universe(rng):
 
 def make_config(rng):
     """swarm configuration: which intents / fault kinds are enabled in this run, and how strongly"""
-    cfg = {'legal': {}, 'fault': {}, 'n_ops': rng.choice([5, 8, 12, 20, 30, 40]),
+    from . import core as _core
+    cfg = {'legal': {}, 'fault': {}, 'n_ops': rng.choice([5, 8, 12, 20, 30, 40] + ([60] if _core.TIER == 'thorough' else [])),
            'fault_rate': rng.choice([0.0, 0.15, 0.3, 0.5, 0.7]),
            'build': rng.randint(3, 14)}
     for k in LEGAL_INTENTS:
